@@ -526,7 +526,7 @@ example : ∃ s s', run (init { max := 2, min := 1, qbound := 0 } 2) exampleRun 
 /-- The beginning of an API call: the client program's choice, not a step the scheduler owes. -/
 def isCallOp (op : Op) : Bool :=
   match op with
-  | .callStart | .callStop | .callClear | .callJoin | .callJoinT | .callEnqueue | .callWait _ => true
+  | .callStart | .callStop | .callClear | .callJoin | .callJoinT | .callEnqueue | .callWait _ | .callDone _ => true
   | _ => false
 
 /-- On every infinite run that is strongly fair for each operation of each thread that is neither a time-out, nor the
